@@ -106,6 +106,21 @@ def step (rs : Ranges) : Op → Ranges
 
 def run (rs : Ranges) (ops : List Op) : Ranges := ops.foldl step rs
 
+/-- one iteration of the cache part of `processHeaders(…, to)`: `First()`, `Get(to)`, [the headers go to the Store],
+    `Remove(to)`; `none` = the loop breaks (nothing pending, or nothing up to `to` in the first range) -/
+def drainStep (rs : Ranges) (to : Nat) : Option (List Nat × Ranges) :=
+  match clean rs with
+  | [] => none
+  | r :: rest => if (get r to).isEmpty then none else some (get r to, remove r to :: rest)
+
+/-- the loop (with fuel): what it handed to the Store, in order, and the pending set it leaves -/
+def drain : Nat → Ranges → Nat → List Nat × Ranges
+  | 0, rs, _ => ([], clean rs)
+  | f + 1, rs, to =>
+    match drainStep rs to with
+    | none => ([], clean rs)
+    | some (hs, rs') => let r := drain f rs' to; (hs ++ r.1, r.2)
+
 /-! ### invariant -/
 
 /-- the cached heights of a range are start, start+1, … -/
